@@ -22,6 +22,7 @@ import (
 	"fmt"
 	"io"
 	"sync"
+	"sync/atomic"
 	"time"
 
 	"github.com/saucelabs/forwarder/internal/martian/log"
@@ -51,27 +52,44 @@ func bicopy(ctx context.Context, cc ...copier) {
 	ctx, cancel := context.WithCancel(ctx)
 	defer cancel()
 
+	// Octets copied, all tunnels together.
+	var moved atomic.Int64
+
 	donec := make(chan struct{}, len(cc))
 	for i := range cc {
-		go cc[i].copy(ctx, donec)
+		go cc[i].copy(ctx, &moved, donec)
 	}
 
 	for i := range cc {
 		<-donec
 		if i == 0 {
-			// Forcibly close all tunnels 1 minute after the first tunnel finished.
-			go gracefulCloseAfter(ctx, bicopyGracefulTimeout, cc...)
+			// Forcibly close all tunnels when, after the first tunnel finished,
+			// nothing has been copied for 1 minute.
+			go gracefulCloseAfter(ctx, bicopyGracefulTimeout, &moved, cc...)
 		}
 	}
 }
 
-func gracefulCloseAfter(ctx context.Context, d time.Duration, cc ...copier) {
-	select {
-	case <-ctx.Done():
-		return
-	case <-time.After(d):
-		log.Info(ctx, "forcibly closing tunnel after graceful period", "period", d)
+func gracefulCloseAfter(ctx context.Context, d time.Duration, moved *atomic.Int64, cc ...copier) {
+	t := time.NewTimer(d)
+	defer t.Stop()
+
+	for last := moved.Load(); ; {
+		select {
+		case <-ctx.Done():
+			return
+		case <-t.C:
+		}
+		// A tunnel that is still copying is left alone: a peer that hangs is the concern, not one that is slow.
+		n := moved.Load()
+		if n == last {
+			break
+		}
+		last = n
+		t.Reset(d)
 	}
+
+	log.Info(ctx, "forcibly closing tunnel after graceful period", "period", d)
 	for i := range cc {
 		cc[i].close(ctx)
 	}
@@ -83,12 +101,24 @@ type copier struct {
 	src  io.Reader
 }
 
-func (c copier) copy(ctx context.Context, donec chan<- struct{}) {
+// countingWriter adds what it writes to n.
+type countingWriter struct {
+	io.Writer
+	n *atomic.Int64
+}
+
+func (w countingWriter) Write(p []byte) (int, error) {
+	n, err := w.Writer.Write(p)
+	w.n.Add(int64(n))
+	return n, err
+}
+
+func (c copier) copy(ctx context.Context, moved *atomic.Int64, donec chan<- struct{}) {
 	bufp := copyBufPool.Get().(*[]byte) //nolint:forcetypeassert // It's *[]byte.
 	buf := *bufp
 	defer copyBufPool.Put(bufp)
 
-	if _, err := io.CopyBuffer(c.dst, c.src, buf); err != nil && !isClosedConnError(err) {
+	if _, err := io.CopyBuffer(countingWriter{c.dst, moved}, c.src, buf); err != nil && !isClosedConnError(err) {
 		log.Error(ctx, "failed to copy tunnel", "name", c.name, "error", err)
 	}
 	c.closeWriter(ctx)
